@@ -1,5 +1,7 @@
 import PydlVerif.Model.JsonUtil
 import PydlVerif.Model.Mangle
+import PydlVerif.Model.ManglePly
+import PydlVerif.Model.MangleExt
 open Lean
 namespace PydlVerif.Driver.C12
 open PydlVerif PydlVerif.Mangle
@@ -31,6 +33,35 @@ def brow (j : Json) : Except String BRow := do
   match ← J.list J.nat j with
   | [i, n] => pure ⟨i, n⟩
   | _ => throw "brow: need [icap, ncaps]"
+
+/-! ### .ply reader -/
+open PydlVerif.ManglePly in
+def chars (s : List Char) : Json := Json.str (String.ofList s)
+
+/-- `float(text)` as a table computed by Python for every token of the file (absent / null = ValueError) -/
+def ftabEntry (j : Json) : Except String (List Char × Option Float) := do
+  match ← J.arr j with
+  | #[t, v] => pure ((← J.str t).toList, ← J.optional J.float v)
+  | _ => throw "ftab: need [token, bits|null]"
+
+def lookupF (tab : List (List Char × Option Float)) (t : List Char) : Option Float :=
+  match tab.find? (fun e => e.1 == t) with
+  | some e => e.2
+  | none => none
+
+open PydlVerif.ManglePly in
+def plyPolyJ (P : PlyPoly Float) : Json :=
+  Json.mkObj [("id", J.ofNat P.id), ("n", J.ofNat P.ncaps), ("u", J.ofNat P.useCaps), ("w", J.ofFloat P.weight),
+              ("pixel", J.ofInt P.pixel), ("str", match P.str with | some s => J.ofFloat s | none => Json.null),
+              ("rows", J.ofList (fun c => J.ofList J.ofFloat [c.x, c.y, c.z, c.cm]) P.rows)]
+
+open PydlVerif.ManglePly in
+def lexLineJ (l : LexLine) : Json :=
+  Json.mkObj [("starts", Json.bool l.starts),
+              ("hdr", match l.hdr with
+                      | some (ds, ps) => Json.arr #[chars ds, J.ofList (J.ofList chars) ps]
+                      | none => Json.null),
+              ("toks", J.ofList chars l.toks), ("raw", chars l.raw)]
 
 def handle (j : Json) : Except String Json := do
   let op ← J.fStr j "op"
@@ -78,6 +109,31 @@ def handle (j : Json) : Except String Json := do
     let bl ← J.list brow (← J.fld j "blist")
     let bc ← J.list cap (← J.fld j "bcaps")
     pure (resJ (J.ofList polyJ) (balkansAssemble bl bc))
+  | "record1" =>
+    let P ← poly (← J.fld j "poly")
+    pure (resJ polyJ (ofRecordScalar P))
+  | "circlecap" =>
+    let rs ← J.list J.float (← J.fld j "r")
+    let pts ← J.list point (← J.fld j "pts")
+    pure (J.ofList capJ (List.zipWith circleCap rs pts))
+  | "addcaps" =>
+    let P ← poly (← J.fld j "poly")
+    let new ← J.list cap (← J.fld j "new")
+    pure (resJ polyJ (addCaps P new))
+  | "polyn" =>
+    let P ← poly (← J.fld j "poly")
+    let O ← poly (← J.fld j "other")
+    let n ← J.fNat j "n"
+    let c ← J.fBool j "compl"
+    pure (resJ polyJ (polyn P O n c))
+  | "plyparse" =>
+    let text ← J.fStr j "text"
+    let tab ← J.list ftabEntry (← J.fld j "ftab")
+    let r := ManglePly.parsePly (lookupF tab) (1.0 : Float) text.toList
+    pure (resJ (fun (h, ps) => Json.mkObj [("header", J.ofList chars h), ("polys", J.ofList plyPolyJ ps)]) r)
+  | "plylex" =>
+    let text ← J.fStr j "text"
+    pure (J.ofList lexLineJ (ManglePly.lexFile text.toList))
   | _ => throw s!"C12: unknown op {op}"
 
 end PydlVerif.Driver.C12
